@@ -693,7 +693,33 @@ func genStale(rng *rand.Rand) (script []string, fam string) {
 	return script, "stale"
 }
 
+// variant of clearWriteAbortState in the tree under test, determined by a forced schedule: the
+// last writer waits in clearWriteDeadlineAfterAbort while the abort's SetWriteDeadline(now) fails.
+// The code as it is releases the blocked bit (no clearing call follows); the code with
+// findings/proposed/C13-stale-deadline-clearer.diff hands the abort over to the waiting writer,
+// which then calls SetWriteDeadline(time.Time{}).  Token vP / vH, first token of every case.
+var variantTok = "vP"
+
+func probeVariant() string {
+	obs, _ := runScript([]string{"ap0", "pt1,0", "H2", "M1", "PA1,1,1,0", "W1,p,2,0,0,0", "X1", "A1,w,0", "XA1,b", "R1", "Z6", "GA1,b", "K1", "J1"})
+	sawFail := false
+	for _, e := range obs {
+		if e == "arm0" {
+			sawFail = true
+		}
+		if sawFail && strings.HasPrefix(e, "clr") {
+			return "vH"
+		}
+		if e == "|" {
+			break
+		}
+	}
+	return "vP"
+}
+
 func run(c *Ctx) error {
+	variantTok = probeVariant()
+	c.Count("variant:" + variantTok)
 	c.Rule = "a case is a schedule script on a fresh UDPMuxDefault over the fake socket. rand: 1-4 writers (handle WriteTo / WriteToAddrPort / writeToContext, socket write passing, blocking until deadline, or blocking until released), 0-2 aborters (abortWrite through the handle or candidateBase.abortIO), context cancels, arming failures decided per SetWriteDeadline(now) occurrence (22%), clearing failures (6%), seeded Gosched/us-sleep perturbation inside the fake, GOMAXPROCS 1/2/4. stale: gate-forced schedules around the waiter of clearWriteDeadlineAfterAbort (3 writers, 3-4 aborts, first arming fails; control variant without failure). Non-trivial = at least one abort armed or tried to arm the deadline while a writer was in flight (arm event in the log)."
 	if c.Replay != "" {
 		for _, t := range c.ReplayLines() {
@@ -717,7 +743,11 @@ func run(c *Ctx) error {
 }
 
 func emit(c *Ctx, script []string, fam string) {
+	if len(script) > 0 && (script[0] == "vP" || script[0] == "vH") {
+		script = script[1:] // a replayed case: the variant is determined afresh
+	}
 	obs, info := runScript(script)
+	script = append([]string{variantTok}, script...)
 	if fam == "replay" {
 		fam = "rand"
 		for _, t := range script {
